@@ -33,53 +33,55 @@ func c04Probes(bs, max int) []int {
 }
 
 // c04CheckFile: path name holds exactly ref[:n] (n symbolic, n >= nLo), read through a fresh
-// handle: a first Read of nLo bytes (all inside the file), then the rest with one Read into a
-// buffer that is larger than what can remain, then a Read that must report the end.
+// handle block by block (Seek to k*bs, one Read of a block-sized buffer; the last piece extends
+// 8 bytes beyond the longest possible file). Compared positions: the probes and every position
+// from nLo-8 on when that region is short (the region a second write can touch).
 func c04CheckFile(fsys *FileSystem, name string, ref []byte, n int, nLo int, bs int) {
 	c04NoPanic()
 	g, err := fsys.OpenFile(name, os.O_RDONLY)
 	c04AllowPanic()
 	vp.Assert(err == nil, "file written by the library opens")
-	if nLo > 0 {
-		vp.AllocCap(nLo)
-		head := make([]byte, nLo)
+	maxN := len(ref) + 8
+	dense := nLo - 8
+	if len(ref)-dense > 64 {
+		dense = len(ref) // probes only
+	}
+	probes := c04Probes(bs, len(ref))
+	vp.AllocCap(bs)
+	for lo := 0; lo < maxN; lo += bs {
+		pl := bs
+		if maxN-lo < pl {
+			pl = maxN - lo
+		}
+		buf := make([]byte, pl)
 		c04NoPanic()
-		got, err := g.Read(head)
+		_, err = g.(io.Seeker).Seek(int64(lo), io.SeekStart)
 		c04AllowPanic()
-		if err != nil {
-			vp.Assert(err == io.EOF, "reading a file the library wrote does not fail")
-			vp.Assert(n == nLo, "io.EOF only at the end of the file")
-		}
-		vp.Assert(got == nLo, "a Read inside the file fills the buffer")
-		for _, j := range c04Probes(bs, nLo) {
-			vp.Assert(head[j] == ref[j], "file content = reference content")
-		}
-	}
-	tailMax := len(ref) - nLo + 8
-	vp.AllocCap(tailMax)
-	tail := make([]byte, tailMax)
-	c04NoPanic()
-	// (Seek makes the handle offset a constant again: the device model reads at constant offsets)
-	_, err = g.(io.Seeker).Seek(int64(nLo), io.SeekStart)
-	c04AllowPanic()
-	vp.Assert(err == nil, "seek inside the file accepted")
-	c04NoPanic()
-	got, err := g.Read(tail)
-	c04AllowPanic()
-	if err != nil {
-		vp.Assert(err == io.EOF, "reading a file the library wrote does not fail")
-	}
-	vp.Assert(nLo+got == n, "file length = reference length")
-	if tailMax <= 64 {
-		for j := 0; j < tailMax-8; j++ {
-			if nLo+j < n {
-				vp.Assert(tail[j] == ref[nLo+j], "file content = reference content")
+		vp.Assert(err == nil, "seek accepted")
+		c04NoPanic()
+		got, err := g.Read(buf)
+		c04AllowPanic()
+		want := 0
+		if n > lo {
+			want = n - lo
+			if want > pl {
+				want = pl
 			}
 		}
-	} else {
-		for _, j := range c04Probes(bs, len(ref)) {
-			if j >= nLo && j < n {
-				vp.Assert(tail[j-nLo] == ref[j], "file content = reference content")
+		vp.Assert(got == want, "Read delivers the bytes the reference holds at this position")
+		if err != nil {
+			vp.Assert(err == io.EOF, "reading a file the library wrote does not fail")
+			vp.Assert(lo+pl >= n, "io.EOF only at the end of the file")
+		}
+		for j := lo; j < lo+pl && j < len(ref); j++ {
+			sel := j >= dense
+			for _, q := range probes {
+				if q == j {
+					sel = true
+				}
+			}
+			if sel && j < n {
+				vp.Assert(buf[j-lo] == ref[j], "file content = reference content")
 			}
 		}
 	}
@@ -156,37 +158,28 @@ func VP_C04_sc_write_read_4k() {
 	}
 }
 
-// c04ScTwoWrites: create + write of l1 bytes at 0 (l1 case-split: inside a block, exactly one
-// block, just over one block), then a second handle writes l2 (1..8) bytes at a symbolic offset
-// o2 in [0, l1+4]: overlap, extension, size unchanged or a gap of up to 4 bytes (which reads as
-// zeros in the reference tree).
-// The two structural cases are separate harnesses (extend: the second write ends after the
-// current end; inside: it ends at or before it) with offsets built so that the case is decided
-// by the value ranges.
-func c04ScTwoWrites(cfg c04Cfg, l1 int, extend bool) {
+// c04ScTwoWrites: create + write of l1 bytes at 0, then a second handle writes l2 bytes at a
+// symbolic offset o2 = base + (d & mask): overlap, extension, exact append or a gap of a few
+// bytes (which reads as zeros in the reference tree). l1/base/mask are chosen per harness so that
+// the *structure* (which blocks exist, whether a block is allocated) is fixed and decided by the
+// value ranges, while offset and bytes are symbolic.
+func c04ScTwoWrites(cfg c04Cfg, l1, base, mask, l2 int) {
 	fsys, dev, size := c04Fixture(cfg)
 	bs := cfg.bs()
 	data1 := vp.Bytes("data1", l1)
-	data2 := vp.Bytes("data2", 8)
-	var l2, o2 int
-	if extend {
-		l2 = 8
-		o2 = l1 - 4 + int(vp.U8("d")&7) // l1-4 .. l1+3: overlap+extend, append, gap
-	} else {
-		l2 = 1 + int(vp.U8("e")&3)           // 1..4
-		o2 = int(vp.U16("d") & 1023) // 0..1023 (l1 >= 1027 in this case)
-		if l1 < 1027 {
-			o2 = int(vp.U16("d") & 511)
-		}
-	}
+	data2 := vp.Bytes("data2", 8)[:l2] // capacity 8: the reference indexes it with k&7
+	o2 := base + int(vp.U8("d")&uint8(mask))
 	c04Window(fsys, dev, cfg, 4)
 	c04WriteAt(fsys, "/f", os.O_CREATE|os.O_RDWR, -1, data1)
 	vp.AllocCap(8)
 	dev.symCap = 8
 	vp.KnownPanic("KF-C04-3", "ext4/file.go:198")
-	c04WriteAt(fsys, "/f", os.O_RDWR, int64(o2), data2[:l2])
+	c04WriteAt(fsys, "/f", os.O_RDWR, int64(o2), data2)
 	// reference
-	maxR := l1 + 4 + 8
+	maxR := l1
+	if base+mask+l2 > maxR {
+		maxR = base + mask + l2
+	}
 	ref := make([]byte, maxR)
 	for j := 0; j < maxR; j++ {
 		var v byte
@@ -198,15 +191,18 @@ func c04ScTwoWrites(cfg c04Cfg, l1 int, extend bool) {
 		if k >= l2 {
 			in = false
 		}
-		ref[j] = vp.IteU8(in, data2[vp.IteInt(in, k, 0)], v)
+		ref[j] = vp.IteU8(in, data2[:8][k&7], v) // l2 <= 8
 	}
 	n := l1
 	if o2+l2 > n {
 		n = o2 + l2
 	}
 	nLo := l1
-	if !extend || l1-4 < nLo {
-		nLo = l1 - 4
+	if base+l2 < nLo {
+		nLo = base + l2
+	}
+	if base < nLo {
+		nLo = base
 	}
 	c04CheckFile(fsys, "/f", ref, n, nLo, bs)
 	fs2 := c04Reopen(dev, size, cfg)
@@ -225,12 +221,42 @@ func c04ScTwoWrites(cfg c04Cfg, l1 int, extend bool) {
 	vp.Cover("two writes done")
 }
 
-func VP_C04_sc_extend_1k_in()    { c04ScTwoWrites(c04Cfg{spb: 2}, 1000, true) }
-func VP_C04_sc_extend_1k_edge()  { c04ScTwoWrites(c04Cfg{spb: 2}, 1022, true) }
-func VP_C04_sc_extend_1k_exact() { c04ScTwoWrites(c04Cfg{spb: 2}, 1024, true) }
-func VP_C04_sc_overwrite_1k()    { c04ScTwoWrites(c04Cfg{spb: 2}, 1030, false) }
+// inside block 0: size 1000, second write of 8 bytes at 996..1003 (overlap+extend, append, gap)
+func VP_C04_sc_extend_1k_in() { c04ScTwoWrites(c04Cfg{spb: 2}, 1000, 996, 7, 8) }
+
+// two blocks in one extent: size 1030, 8 bytes at 1016..1031 (across the block boundary,
+// overwrite inside, overlap+extend, append, gap)
+func VP_C04_sc_extend_1k_cross() { c04ScTwoWrites(c04Cfg{spb: 2}, 1030, 1016, 15, 8) }
+
+// overwrite anywhere in the first block of a 1030-byte file (size unchanged)
+func VP_C04_sc_overwrite_1k() { c04ScTwoWrites(c04Cfg{spb: 2}, 1030, 0, 255, 4) }
 func VP_C04_sc_extend_4k() {
 	if vp.Thorough() {
-		c04ScTwoWrites(c04Cfg{spb: 8, csum: true, start: 4096}, 4094, true)
+		c04ScTwoWrites(c04Cfg{spb: 8, csum: true, start: 4096}, 4100, 4086, 15, 8)
 	}
+}
+
+// VP_C04_sc_write_past_block: a file of exactly one block, then 8 bytes written at offset
+// 1024..1027 through a second handle (a block must be allocated): accepted, no panic.
+func VP_C04_sc_write_past_block() {
+	cfg := c04Cfg{spb: 2}
+	fsys, dev, _ := c04Fixture(cfg)
+	data1 := vp.Bytes("data1", 1024)
+	data2 := vp.Bytes("data2", 8)
+	o2 := 1024 + int(vp.U8("d")&3)
+	c04Window(fsys, dev, cfg, 4)
+	c04WriteAt(fsys, "/f", os.O_CREATE|os.O_RDWR, -1, data1)
+	vp.AllocCap(8)
+	dev.symCap = 8
+	vp.KnownPanic("KF-C04-3", "ext4/file.go:198")
+	c04WriteAt(fsys, "/f", os.O_RDWR, int64(o2), data2)
+	c04NoPanic()
+	fi, err := fsys.Stat("/f")
+	c04AllowPanic()
+	vp.Assert(err == nil, "stat accepted")
+	vp.Assert(fi.Size() == int64(o2+8), "size = end of the second write")
+	if o2 > 1024 {
+		vp.Cover("write starts inside the new block")
+	}
+	vp.Cover("write past block done")
 }
